@@ -256,6 +256,11 @@ def int_inputs(d, rng, exhaustive_bits=8, extra=12):
             vals.add(b + dlt)
     for v in (1, -1, 2, 3, 6, 14, 15, 101, 200, 201, lo + 1, hi - 1, hi // 2):
         vals.add(v)
+    # the edges of every narrower width, on both sides of zero
+    for k_ in (7, 8, 15, 16, 24, 31, 32, 53, 63, 64, 127):
+        for v in ((1 << k_) - 1, 1 << k_, (1 << k_) + 1):
+            vals.add(v)
+            vals.add(-v)
     for _ in range(extra):
         vals.add(rng.range(lo, hi))
         vals.add(rng.range(-130, 130))
@@ -544,6 +549,10 @@ def str_inputs(d, rng, alphabet, maxlen=3, sample=None, extra=()):
     for _ in range(6):
         ln = rng.range(4, 9)
         out.append("".join(rng.choice(alphabet) for _ in range(ln)))
+    # beyond the alphabet: astral characters (with and without case mappings), combining marks,
+    # NUL / quote / backslash, and strings around the lengths 64 and 255
+    out += ["\U00010400", "\U00010428a", "\U0001F600", "a\U0001F600\U0001F600", "a\u0301", "\u0301", "e\u0301\u0323", "\0", "a\0b", "\"", "\\", "a\"b\\c",
+            "a" * 63, "a" * 64, "a" * 65, "\u0436" * 64, "B" * 255, "x" * 256, " " + "b" * 300 + " ", "\u00df" * 65, "\U0001F600" * 70]
     return out
 
 
